@@ -140,6 +140,7 @@ def edge_call(lib, ex, base, name, args, kw, st, node):
             s.ghost.setdefault("puts", []).append((x.t, store, lineno))
             return [(VBool(True), s)]
         tok = args[0].val if isinstance(args[0], VOpt) else args[0]
+        s.ghost["slot_at_get"] = len(s.ghost.get("slots", [])) > 0
         item = VObj(sel(s, "tok_bound", tok.t), "item")
         s.assume(item.t >= 0)
         s.ghost.setdefault("gets", []).append((item.t, store, lineno))
@@ -399,8 +400,9 @@ class Yields:
         s.next_id = nid
         s.ghost["epoch"] = s.ghost.get("epoch", 0) + 1
         s.ghost.pop("can_fact", None)
-        # node fields shared with the node's other processes
-        for fname in getattr(self.con, "shared_fields", ()):
+        # node fields shared with the node's other processes (K-release: a process resuming from
+        # `yield resource.release()` runs before the process whose request the release grants)
+        for fname in (getattr(self.con, "shared_fields", ()) if not (isinstance(value, VObj) and value.kind == "release") else ()):
             if fname in s.f:
                 from pyvc.contract import _fresh_like
                 s.f[fname] = _fresh_like(s.f[fname], "%s.%s" % (tag, fname))
@@ -427,7 +429,10 @@ class Yields:
             s.ghost.setdefault("slots", []).append(value.t)
         elif isinstance(value, VObj) and value.kind == "release":
             res = self.lib_resource(st)
-            held = s.ghost.get("slots", [])
+            held = list(s.ghost.get("slots", []))
+            so = getattr(self.con, "slot_of", None)
+            if so and so in self.args:
+                held.append(self.args[so].t)
             ctx.oblige("yield%d.release-of-a-held-slot@L%d" % (ordinal, lineno), st,
                        [z3.Or(*[h == value.t for h in held]) if held else z3.BoolVal(False)], "yield", lineno, ("C08",))
             if res is not None:
